@@ -25,4 +25,8 @@ def check(ctx: Ctx) -> str:
     from . import c13
 
     ctx.run_imported("C13", {"R3", "R6"}, c13.check)
+    # template data under a run-time autoescape decision is not folded (rule owned by C08)
+    from . import c08
+
+    ctx.run_imported("C08", {"R1"}, c08.check)
     return __doc__ or ""
